@@ -14,6 +14,7 @@ _Bool __modeb_fresh(void **pp, unsigned long n) { *pp = __CPROVER_allocate(n, 0)
 /* PTR_EQ is handled by c2h: assignment where assumed, equality where asserted */
 #else
 #define PTR_EQ(a, b) __CPROVER_pointer_equals((a), (b))
+#define SET_EQ(a, b) ((a) == (b))
 #define IS_FRESH(p, n) __CPROVER_is_fresh((p), (n))
 #define RET __CPROVER_return_value
 #endif
@@ -50,6 +51,17 @@ _Bool __modeb_fresh(void **pp, unsigned long n) { *pp = __CPROVER_allocate(n, 0)
 #define K_AND(a, b) (((a) == K_F || (b) == K_F) ? K_F : (((a) == K_T && (b) == K_T) ? K_T : K_N))
 #define K_XOR(a, b) (((a) == K_N || (b) == K_N) ? K_N : (((a) != (b)) ? K_T : K_F))
 #define K_NOT(a)    ((a) == K_N ? K_N : ((a) == K_T ? K_F : K_T))
+
+/* the fields of a Value as assigns targets.  Never havoc a whole struct that contains a union:
+ * CBMC then treats the union's members as unrelated variables. */
+#define VALUE_FIELDS(v) (v)->_value.i, (v)->_type._major, (v)->_type._minor, (v)->_type._level, (v)->_flags
+
+/* payload views */
+#define V_I(v) ((v)->_value.i)
+#define V_U(v) ((unsigned long)(v)->_value.i)
+#define V_D(v) (*(double *)&(v)->_value.i)
+#define INT_DOMAIN(v) (V_LEVEL(v) == 0 && (V_MAJOR(v) == NO_TYPE || V_MAJOR(v) == INTEGER))
+#define D_SAME(x, y) ((x) == (y) || ((x) != (x) && (y) != (y)))   /* equal, or both NaN */
 
 /* bitwise equality of two Values (tag, flags, payload bits) */
 #define V_SAME(a, b) ((a)->_flags == (b)->_flags && V_MAJOR(a) == V_MAJOR(b) && V_MINOR(a) == V_MINOR(b) && \
